@@ -231,6 +231,12 @@ theorem decodeObject_ne_panic (s : Sch) (ex : Bool) (raw : String) (c : Dec) (hc
   repeat' split
   all_goals first | exact hc | simp
 
+theorem decodeObject_ne_nil (s : Sch) (ex : Bool) (raw : String) (c : Dec) (hc : c ≠ .nil) :
+    decodeObject s ex raw c ≠ .nil := by
+  unfold decodeObject
+  repeat' split
+  all_goals first | exact hc | simp
+
 theorem pairUp_none_iff_odd : ∀ (l : List String), pairUp l = none ↔ l.length % 2 = 1
   | [] => by simp [pairUp]
   | [_] => by simp [pairUp]
